@@ -220,3 +220,18 @@ def common_types(rng, ndim_choices=(1, 2, 2, 3), depth=2, max_numel=12, max_tota
         if tot <= max_total:
             return ts
     return [('atom', 3)]
+
+
+def realise_sharing(fggs_indices, rng, ps, dtype, other, share_p=0.3):
+    """realise ps, re-using (injectively) PhysicalAxis objects of the already realised tensor
+    `other` for axes of equal size -- the library must then `freshen` one operand itself"""
+    share = {}
+    if rng.random() < share_p:
+        used = set()
+        for k2, n2 in enumerate(ps['psizes']):
+            cands = [k for k in other.paxes if k._numel == n2 and n2 != 1 and id(k) not in used]
+            if cands and rng.random() < 0.6:
+                ax = rng.choice(cands)
+                used.add(id(ax))
+                share[k2] = ax
+    return realise(fggs_indices, ps, dtype, shared_axes=share or None), bool(share)
